@@ -70,6 +70,11 @@ pub struct BodyPlan {
     /// (two slices), 2 = `take(n).read_to_end()` (waits for n bytes: not for the "never waits" checks),
     /// 3 = two reads of the schedule, then `read_to_end` / `read_to_string` for the rest
     pub read_api: u8,
+    /// a second request to the same origin is sent first, some of its body read, and the response kept
+    /// alive while the exchange under test runs; its rest is read afterwards (`Observed::twin`)
+    pub twin: bool,
+    /// `send()` runs on a thread of its own; the response comes back to the caller's thread to be read
+    pub send_on_other_thread: bool,
     /// how the chunked body was written (to re-encode it with other line endings)
     pub chunk_specs: Vec<ChunkSpec>,
     pub last_chunk_line: Vec<u8>,
@@ -275,6 +280,8 @@ pub fn gen_plan(g: &mut G, max_payload: usize) -> BodyPlan {
         chunk_specs: chunks.clone(),
         last_chunk_line: last.to_vec(),
         lf_line_endings: false,
+        twin: false,
+        send_on_other_thread: false,
         garbage,
         wire,
         declared_len: len,
@@ -335,6 +342,8 @@ pub fn plan_from_payload(g: &mut G, payload: Vec<u8>, mut headers: Vec<(String, 
         chunk_specs: chunks.clone(),
         last_chunk_line: b"0".to_vec(),
         lf_line_endings: false,
+        twin: false,
+        send_on_other_thread: false,
         garbage: 0,
         declared_len: len,
         script: Script::from_wire(&wire.bytes, &segs, End::Fin),
@@ -507,6 +516,9 @@ pub struct Observed {
     pub text: Option<String>,
     /// WriteTo mode: (simulated time, bytes) of every write the caller's writer received
     pub sink_writes: Vec<(u64, usize)>,
+    /// `BodyPlan::twin`: everything read from the other response (before and after the exchange under test),
+    /// and the error that ended the reading, if one did
+    pub twin: Option<(Vec<u8>, Option<String>)>,
 }
 
 /// formats into nothing: rendering an error is code of the library, too
@@ -693,8 +705,33 @@ pub fn caller_with(plan: &BodyPlan, stop_on_block: bool, tweak: impl FnOnce(atto
             // dropped here, usually in mid-body
         }
     }
+    let mut twin: Option<(attohttpc::Response, Vec<u8>)> = None;
+    if plan.twin {
+        let mut pre = attohttpc::RequestBuilder::new(attohttpc::Method::GET, &url).read_timeout(Duration::from_millis(plan.read_timeout_ms));
+        if plan.tls {
+            pre = pre.add_root_certificate(ca_cert()).proxy_settings(attohttpc::ProxySettings::builder().build());
+        }
+        if let Ok(mut r) = pre.send() {
+            let k = (plan.payload.len() / 3).min(5000);
+            let mut got = Vec::new();
+            let mut b = [0u8; 700];
+            while got.len() < k {
+                match r.read(&mut b) {
+                    Ok(0) => break,
+                    Ok(n) => got.extend_from_slice(&b[..n]),
+                    Err(e) if e.kind() == std::io::ErrorKind::Interrupted => {}
+                    Err(_) => break,
+                }
+            }
+            twin = Some((r, got));
+        }
+    }
     let t_in = attosim::now_ns();
-    let resp = rb.send();
+    let resp = if plan.send_on_other_thread {
+        attosim::thread::spawn(move || rb.send()).join().expect("sending thread")
+    } else {
+        rb.send()
+    };
     o.send_t = (t_in, attosim::now_ns());
     let mut resp = match resp {
         Ok(r) => r,
@@ -704,6 +741,23 @@ pub fn caller_with(plan: &BodyPlan, stop_on_block: bool, tweak: impl FnOnce(atto
         }
     };
     o.status = resp.status().as_u16();
+    read_body(plan, stop_on_block, resp, &mut o);
+    if let Some((mut r, mut got)) = twin {
+        let mut rest = Vec::new();
+        let res = loop {
+            match r.read_to_end(&mut rest) {
+                Ok(_) => break None,
+                Err(e) if e.kind() == std::io::ErrorKind::Interrupted => {}
+                Err(e) => break Some(io_kind(&e)),
+            }
+        };
+        got.extend_from_slice(&rest);
+        o.twin = Some((got, res));
+    }
+    o
+}
+
+fn read_body(plan: &BodyPlan, stop_on_block: bool, resp: attohttpc::Response, o: &mut Observed) {
     // one plan in four reads through the `ResponseReader` that `split()` hands out instead of the
     // response itself (same methods, their own implementations)
     let mut resp = if (plan.payload.len() + plan.wire.head_len) % 4 == 1 { Body::Split(resp.split().2) } else { Body::Whole(resp) };
@@ -941,7 +995,6 @@ pub fn caller_with(plan: &BodyPlan, stop_on_block: bool, tweak: impl FnOnce(atto
             o.calls.push(Call { what: "text_utf8", size: 0, t_in, t_out, res, handed_before: 0 });
         }
     }
-    o
 }
 
 pub struct Ran<T = Observed> {
